@@ -144,7 +144,7 @@ emits depends on `has_validity_bitmap(type, version)`. -/
 /-- `has_validity_bitmap(data_type, write_options)` for metadata version `v` (4 or 5) -/
 def hasValidityBitmap (t : DType) (v : Nat) : Bool :=
   if v < Generated.C04.HAS_VALIDITY_SPLIT_VERSION then
-    (match t with | .null => false | _ => true)
+    (match t with | .null | .ree _ _ => false | _ => true)
   else
     (match t with | .null | .union _ _ | .ree _ _ => false | _ => true)
 
